@@ -2592,3 +2592,126 @@ def syn4(ctx):
             r.report("SYN-4|%s" % short, fn_loc(b), path,
                      "the feature name is collected without skipping whitespace between its characters: `[+del. rel.]`, `[+sec. stress]` and the manual's own `[ + d e l . r e l . ]` stop at the first space (UnknownFeature / ExpectedAlphabetic) while `[+del.rel.]` is accepted")
     return r
+
+
+# ---------------------------------------------------------------- SUP-8: the suprasegmental pass of Syllable::apply_seg_mods
+
+def sup8(ctx):
+    """Syllable::apply_seg_mods applies the node / feature modifiers to every copy of a (long) segment and then hands the
+    suprasegmental part -- length, stress *and tone* -- to apply_supras. (a) Every non-error return passes the call of
+    apply_supras: an early exit that tests only some of the three (`length == [None, None] && stress == [None, None]`)
+    drops the third. (b) The number of copies the segmental loop walks over is read from the syllable *after* any
+    length change: no call of apply_supras lies between the read of the run length and that loop."""
+    from engine_flw2 import _all_defs
+    r = RuleResult("SUP-8", "Syllable::apply_seg_mods: every non-error return passes apply_supras (no partial early exit), and the run length that bounds the loop over the segment's copies is not read before a length change", floor=2)
+    lib = ctx.lib
+    b = ctx.fn(lib, "asca::syll::Syllable::apply_seg_mods")
+    cfg = b.cfg
+    S = {i for i, t in b.calls() if (callee_path(t) or "") == "asca::syll::Syllable::apply_supras"}
+    if not S:
+        raise AnchorMissing("SUP-8: Syllable::apply_seg_mods does not call apply_supras")
+    rets = {i for i, bl in enumerate(b.blocks) if bl["t"]["k"] == "return" and not bl.get("cleanup")}
+    errs = {i for i, t in b.calls() if "from_residual" in (callee_path(t) or "")}
+    reach = cfg.reachable_from(0, avoid=S | errs)
+    bad = sorted(x for x in reach if x in rets)
+    r.inst("apply_seg_mods: every non-error return passes the call of apply_supras", fn_loc(b), "ok" if not bad else "report")
+    if bad:
+        r.report("SUP-8|apply_seg_mods|return-without-supras", fn_loc(b), b.path,
+                 "Syllable::apply_seg_mods can return without calling apply_supras: a matrix whose only suprasegmental is the one the early exit does not test (e.g. `[tone: 5]` when only length and stress are tested) is silently not applied to a segment -- `V > [tone:5]` does nothing")
+    # (b)
+    L = {i for i, t in b.calls() if (callee_path(t) or "") == "asca::seg::Segment::apply_seg_mods"}
+    reads = [i for i, t in b.calls() if (callee_path(t) or "").endswith("Syllable::get_seg_length_at")]
+    loops = [(h, set(body)) for h, body in cfg.loops if L & set(body)]
+    if not loops or not reads:
+        raise AnchorMissing("SUP-8: apply_seg_mods: the loop over the copies (Segment::apply_seg_mods) or the read of the run length was not found")
+    h, body = loops[0]
+    stale = False
+    for rd in reads:
+        if rd in body:
+            continue
+        # an apply_supras call strictly between this read and the loop head, with no later read before the loop
+        for s_ in S:
+            if s_ in cfg.reachable_from(rd) and h in cfg.reachable_from(s_) and s_ not in body:
+                later = [r2 for r2 in reads if r2 != rd and r2 in cfg.reachable_from(s_) and h in cfg.reachable_from(r2) and r2 not in body]
+                if not later:
+                    stale = True
+    r.inst("apply_seg_mods: the loop over the segment's copies is bounded by a run length read after any length change", fn_loc(b), "ok" if not stale else "report")
+    if stale:
+        r.report("SUP-8|apply_seg_mods|stale-run-length", fn_loc(b), b.path,
+                 "the run length is read, then apply_supras changes the number of copies, then the node / feature modifiers are applied to the *old* number of copies: `a > [+long, +nasal]` nasalises only the first copy of the new long vowel (`kãa`), `[-long, +nasal]` also writes onto the following segment")
+    return r
+
+
+# ---------------------------------------------------------------- VAR-4: a variable is written back slot by slot
+
+def var4(ctx):
+    """Syllable::replace_segment first collapses the target run to one copy: right for a literal output segment (`a > e`
+    on /aː/), wrong for writing a captured segment back over what it was captured from -- the tail of a long segment is
+    dropped (`V=1 C=2 > 2 1` on `aːt`). It is called only from an arm that handles a literal IPA output element."""
+    r = RuleResult("VAR-4", "Syllable::replace_segment (which discards the rest of a long run) is called only from the arm of a literal IPA output element, never to write a variable back", floor=1)
+    lib = ctx.lib
+    TARGET = "asca::syll::Syllable::replace_segment"
+    ctx.fn(lib, TARGET)
+    n = 0
+    for b in lib.bodies:
+        if b.in_test_mod() or not b.hir or b.kind == "closure" or b.path == TARGET:
+            continue
+        root = b.hir["body"]
+        sites = [x for x in hirq.walk(root) if x["e"] == "mcall" and x.get("def") == TARGET]
+        if not sites:
+            continue
+        par = hirq.parent_map(root)
+        for k, st in enumerate(sites):
+            n += 1
+            arm_kind = None
+            x, child = par.get(id(st)), st
+            while x is not None and arm_kind is None:
+                if x.get("e") == "match" and (x.get("sty") or "").lstrip("&").endswith("asca::parser::ParseElement"):
+                    for arm in x["arms"]:
+                        if any(y is child for y in hirq.walk(arm["body"])):
+                            ks = [(p.get("path") or "").rsplit("::", 1)[-1] for p in hirq.flat_pats(arm["pat"]) if (p.get("path") or "").startswith(PE)]
+                            arm_kind = "/".join(ks) or "?"
+                child = x
+                x = par.get(id(x))
+            ok = arm_kind == "Ipa"
+            r.inst("%s: replace_segment #%d is called for an output element of kind %s" % (b.path.rsplit("::", 1)[-1], k, arm_kind or "(not inside a match on the element kind)"), fn_loc(b, st.get("ln")), "ok" if ok else "report")
+            if not ok:
+                r.report("VAR-4|%s|replace_segment#%d|%s" % (b.path.rsplit("::", 1)[-1], k, arm_kind or "outside"), fn_loc(b, st.get("ln")), b.path,
+                         "replace_segment collapses a long target to one copy before writing: used for a %s output it drops the tail of the long segment the value was captured from -- `[]=1 > 1` turns `kaːt` into `kat`, and `V=1 C=2 > 2 1` no longer equals `V C > &`" % (arm_kind or "non-literal"))
+    if n == 0:
+        raise AnchorMissing("VAR-4: no call of Syllable::replace_segment found")
+    return r
+
+
+# ---------------------------------------------------------------- ENV-7: the parser does not delete what the user wrote
+
+def env7(ctx):
+    """What stands in an environment is what is matched: the rule parser builds its element lists by appending, and never
+    removes, merges or reorders parsed elements afterwards (`dedup`, `retain`, `remove`, `truncate`, `sort`, `swap`...).
+    The one intended reordering -- the mirrored copy of `_,X` -- is a `rev()` into a new list."""
+    r = RuleResult("ENV-7", "the rule parser's element lists (Vec<Item>) are append-only: no dedup / retain / remove / truncate / sort / swap / pop / clear / drain on them", floor=10)
+    lib = ctx.lib
+    DEL = {"dedup", "dedup_by", "dedup_by_key", "retain", "retain_mut", "remove", "swap_remove", "truncate", "sort", "sort_by", "sort_by_key", "sort_unstable", "swap", "pop", "clear", "drain", "split_off", "reverse"}
+    ADD = {"push", "extend", "append", "insert"}
+    n_add = 0
+    for b in lib.bodies:
+        if b.in_test_mod() or not b.hir or b.kind == "closure" or not b.path.startswith("asca::parser::Parser::"):
+            continue
+        k = 0
+        for x in hirq.walk(b.hir["body"]):
+            if x["e"] != "mcall":
+                continue
+            rty = (x.get("rty") or "").replace("&mut ", "").replace("&", "")
+            if rty not in ("alloc::vec::Vec<asca::parser::Item>", "alloc::vec::Vec<alloc::vec::Vec<asca::parser::Item>>"):
+                continue
+            if x["name"] in ADD:
+                n_add += 1
+                r.inst("%s: `%s` onto an element list" % (b.path.rsplit("::", 1)[-1], x["name"]), fn_loc(b, x.get("ln")), "ok")
+            elif x["name"] in DEL:
+                r.inst("%s: `%s` on an element list" % (b.path.rsplit("::", 1)[-1], x["name"]), fn_loc(b, x.get("ln")), "report")
+                r.report("ENV-7|%s|%s#%d" % (b.path.rsplit("::", 1)[-1], x["name"], k), fn_loc(b, x.get("ln")), b.path,
+                         "the parser edits an element list after building it (`%s`): elements the user wrote are dropped, merged or moved before matching -- e.g. collapsing `$#` keeps the `$` and loses the word boundary, so `_$#` fires at every syllable end" % x["name"])
+                k += 1
+    if n_add < 10:
+        raise AnchorMissing("ENV-7: %d appends onto parser element lists found (expected >= 10)" % n_add)
+    return r
